@@ -220,8 +220,7 @@ theorem negate_parse_compact_legacy_witness :
     (Legacy.ecdsaSignatureParseCompact (beN 32 11 ++ beN 32 1)).isSome = true ∧
     Spec.Libsecp.ecdsa_signature_parse_compact toyE (beN 32 11 ++ beN 32 1) = none := by decide +kernel
 
--- GOAL (not proved): py_eq_contract_ecdsa_recover : EcLaws E → ecdsaRecover E sig msg = Spec.Libsecp.ecdsa_recover E sig msg  (py computes u1·R − u2·G and re-verifies, the contract is SEC 1 §4.1.6 r⁻¹(sR − zG); corresponded on every run)
--- GOAL (not proved): py_eq_contract_ecdsa_sign_recoverable : EcLaws E → … (py searches the recovery id by trial recovery; for x(R) ≥ n — probability ≈ 2^-128 — the py search can raise where libsecp returns id 2/3; corresponded on every run)
+-- (`ecdsa_recover` and `ecdsa_sign_recoverable` are in Props/C08X.lean: the first in full, the second `_partial` with witnesses)
 
 /-! ### non-vacuity -/
 
